@@ -223,6 +223,8 @@ def scenarios(quick):
             # a script without any waiting op never yields: keep them short
             if quick and len(script) == 2 and (si + ci) % 2:
                 continue
+            if len(script) == 3 and (si + ci) % 5:
+                continue          # thorough: every 5th script of length 3 per clock configuration (rotating with the configuration)
             for two in (False, True):
                 if two and (si % 3):
                     continue
@@ -306,7 +308,7 @@ def cfg_sig(cfg):
 def run(rep):
     cfgs = list(scenarios(rep.quick))
     bound = rep.pick(1, 2)
-    tasks = rotate([(ch, bound, rep.pick(400, 3000)) for ch in chunks(cfgs, 6)], rep.seed)
+    tasks = rotate([(ch, bound, rep.pick(400, 1000)) for ch in chunks(cfgs, 6)], rep.seed)
     for part in pmap(run_scenarios, tasks, rep.procs):
         m = part["cov"].pop("distinct_outcomes_max")
         rep.merge(part)
